@@ -12,7 +12,7 @@
   see `hare_draws_in_contract`).  Every theorem holds for all profiles, seat numbers, configurations,
   previous gains and maximum seats (selector and distributor form) — no size bound anywhere.
 -/
-import VotelibProofs.Lemmas.STVPrefix
+import VotelibProofs.Lemmas.STVItem
 import VotelibModel.Gen.Quota
 namespace VL.C03
 open VL VL.STV
@@ -147,6 +147,29 @@ theorem rests_with_top_of_strict_prefix {E : Engine} (hE : EngineOK E) {cfg : Cf
     {st : St} (hr : Reach E cfg inp ds st) (hf : st.final = false) :
     ∀ hp ∈ st.alloc, ∀ bw ∈ hp.2, ∀ t, topCont (strictPre bw.1) (continuing st.alloc) = some t → hp.1 = some t :=
   reach_restsPre hE hr hf
+
+/-- what `topItem` is: the first rank of the ballot with a continuing member -/
+theorem topItem_some_iff {b : Ballot} {cont : List Cand} {it : RankItem} :
+    topItem b cont = some it ↔ ∃ pre post, b = pre ++ it :: post ∧ (∃ c ∈ itemCands it, c ∈ cont) ∧
+      ∀ it' ∈ pre, ∀ c ∈ itemCands it', c ∉ cont := by
+  unfold topItem
+  rw [List.find?_eq_some_iff_append]
+  simp only [itemLive, List.any_eq_true, decide_eq_true_eq, Bool.not_eq_eq_eq_not, Bool.not_true,
+    List.any_eq_false, decide_eq_false_iff_not]
+  constructor
+  · rintro ⟨hl, pre, post, he, hpre⟩; exact ⟨pre, post, he, hl, hpre⟩
+  · rintro ⟨pre, post, he, hl, hpre⟩; exact ⟨hl, pre, post, he, hpre⟩
+
+/-- **Top continuing candidate, ballots with shared ranks included** (code as of commit 4eda093).  At every
+    count every paper — whatever its ballot — rests with a continuing member of the highest rank of the ballot
+    that still has a continuing member, and lies on the exhausted pile exactly when no rank has one. -/
+theorem rests_with_top_rank {E : Engine} (hE : EngineOK E) {cfg : Cfg} {inp : Input} {ds : List Draw}
+    {st : St} (hr : Reach E cfg inp ds st) (hf : st.final = false) :
+    ∀ hp ∈ st.alloc, ∀ bw ∈ hp.2,
+      match topItem bw.1 (continuing st.alloc) with
+      | none => hp.1 = none
+      | some it => ∃ t, hp.1 = some t ∧ t ∈ itemCands it :=
+  reach_restsItem hE hr hf
 
 /-- **A shared first rank divides the weight equally under fractional transfer.**  In the initial
     allocation (Gregory), the weight of a ballot whose first rank is shared by the candidates `cs` (at least two,
